@@ -70,8 +70,14 @@ M_C03_Special(a, obs) ==
   ELSE IF a.t = "sys" THEN If(Accepted(obs) /\ obs.sysPost = obs.sysPre + 1, "SystemTopicAcceptsAnyLoggedInAuthor")
   ELSE {}
 
+\* a publish that arrives while the owner's {del topic} is deleting the topic in the store (interleaving gate of the harness)
+\* is refused with an error: the topic is "being deleted"
+M_C03_Nested(a, obs) ==
+  IF obs.nested.fired /\ obs.nested.act.a = "Pub" /\ a.a = "DelTopic" /\ obs.nested.method = "TopicDelete" /\ Accepted(obs)
+  THEN If(obs.nested.code >= 400, "PublishRefusedWhileTopicIsBeingDeleted") ELSE {}
+
 M_C03(pre, a, obs, post) ==
-  IF ~(IsReq(a) /\ a.a = "Pub") THEN M_C03_Special(a, obs) ELSE
+  IF ~(IsReq(a) /\ a.a = "Pub") THEN M_C03_Special(a, obs) \cup M_C03_Nested(a, obs) ELSE
   LET t == a.t  s == a.s  u == Actor(a)
       \* attached, and the author is currently subscribed with W in both the requested and the granted mode
       writable == /\ t \in M(pre.sess[s].subs)
